@@ -22,13 +22,13 @@ Print Assumptions rw_excl.
 Theorem rw_failed_lock_noop : forall s l s', reach s -> step s l = Some s' -> lock_label s l = true ->
   (exists t, l = Th t /\ th_step s t = Some (s', ORet 0 0) /\ holders s' = (t, md (thr s t)) :: holders s)
   \/ frame (actor l) s s'.
-Proof. intros s l s' H. apply lock_step_frame. apply reach_Inv. exact H. Qed.
+Proof. exact rw_failed_lock_noop_thm. Qed.
 Print Assumptions rw_failed_lock_noop.
 
 (* in particular the step that returns -1 *)
 Theorem rw_failed_return_noop : forall s t s' r e, reach s ->
   lock_pc (pc (thr s t)) = true -> th_step s t = Some (s', ORet r e) -> r <> 0 -> frame t s s'.
-Proof. intros s t s' r e H. apply failed_lock_frame. apply reach_Inv. exact H. Qed.
+Proof. exact rw_failed_return_noop_thm. Qed.
 Print Assumptions rw_failed_return_noop.
 
 (* (c) / F18: whoever is in cvar.q is inside lock() with its mark set, and `state`/ledger only change in
@@ -59,7 +59,7 @@ Theorem rw_admission : forall s t, reach s ->
                 (forall x, ~ In x (fst (rd_split (fun x => md (thr s x)) (q s))) -> x <> t -> thr s' x = thr s x)
         end
     end.
-Proof. intros s t H. apply admission_atomic. apply reach_Inv. exact H. Qed.
+Proof. exact rw_admission_thm. Qed.
 Print Assumptions rw_admission.
 
 (* no-stuck: lock free and nobody inside a call => nobody queued *)
